@@ -72,10 +72,10 @@ theorem tbl_row_size {t : Tbl} (h4 : ∀ r ∈ t.toList, r.size = 4) {v : Int} (
 
 theorem pyIndex_arr_nat {l : List PV} {i : Nat} (h : i < l.length) :
     pyIndex (.arr l) (.int i) = .ok (l.getD i .none) := by
-  simp [pyIndex, normIndex_natCast h]
+  simp [pyIndex, pyIndexSeq, normIndex_natCast h]
 theorem pyIndex_arr_int {l : List PV} {i : Int} (h0 : 0 ≤ i) (h : i < l.length) :
     pyIndex (.arr l) (.int i) = .ok (l.getD i.toNat .none) := by
-  simp [pyIndex, normIndex_of_nonneg h0 h]
+  simp [pyIndex, pyIndexSeq, normIndex_of_nonneg h0 h]
 @[simp] theorem pyIndex_arr_cons_zero (x : PV) (xs : List PV) : pyIndex (.arr (x :: xs)) (.int 0) = .ok x :=
   pyIndex_arr_nat (l := x :: xs) (i := 0) (by simp)
 
@@ -305,11 +305,11 @@ theorem npArray_natsPV (l : List Nat) : npArray (natsPV l) = .ok (bitsPV l) := b
 
 theorem pySetItem_bits {bm : List Nat} {i : Nat} (h : i < bm.length) (x : Nat) :
     pySetItem (bitsPV bm) (.int (i : Int)) (.int (x : Int)) = .ok (bitsPV (bm.set i x)) := by
-  simp [bitsPV, pySetItem, normIndex_natCast h]
+  simp [bitsPV, pySetItem, pySetItemSeq, normIndex_natCast h]
 
 theorem pySetItem_bits_of_ge {bm : List Nat} {i : Nat} (h : bm.length ≤ i) (x : Nat) :
     pySetItem (bitsPV bm) (.int (i : Int)) (.int (x : Int)) = .error .indexError := by
   have : normIndex bm.length (i : Int) = Option.none := normIndex_of_ge (by omega)
-  simp [bitsPV, pySetItem, this]
+  simp [bitsPV, pySetItem, pySetItemSeq, this]
 
 end Dsw.Tie.DecodeTie
